@@ -36,6 +36,7 @@ func init() {
 			obs = append(obs, c.ListElementTag("nbt")...)
 			obs = append(obs, c.PayloadOnEveryPath("nbt")...)
 			obs = append(obs, c.ZeroValueType("nbt")...)
+			obs = append(obs, c.MarshalerWrapper("nbt")...)
 			obs = append(obs, filterObs(c.RawRead(), func(o core.Ob) bool { return strings.HasPrefix(o.Key, "nbt.") || strings.HasPrefix(o.Key, "nbt/") })...)
 			return obs
 		},
@@ -56,6 +57,7 @@ func init() {
 			obs = append(obs, c.ListElementTag("nbt")...)
 			obs = append(obs, c.PayloadOnEveryPath("nbt")...)
 			obs = append(obs, c.ZeroValueType("nbt")...)
+			obs = append(obs, c.MarshalerWrapper("nbt")...)
 			obs = append(obs, c.EscapePassOrder("nbt")...)
 			return obs
 		},
